@@ -13,7 +13,12 @@ THEORIES = ['theories/L5Cover/BoxesProofs.vo',
             'theories/L5Cover/MinCoverProofs.vo',
             'theories/L5Cover/CoverEnumProofs.vo',
             'theories/L5Cover/CoverEnumBounded4.vo',
-            'theories/L5Cover/CoverEnumRefuted.vo']
+            'theories/L5Cover/CoverEnumRefuted.vo',
+            'theories/L5Cover/CyclicCoreOpt.vo',
+            'theories/L5Cover/MinCoverFull.vo',
+            'theories/L5Cover/CoverEnumLemmas.vo',
+            'theories/L5Cover/CoverEnumStep.vo',
+            'theories/L5Cover/CoverEnumExact.vo']
 
 HEADER = cq.HEADER + ('From Omega Require Import L5Cover.MinCover '
                       'L5Cover.CoverEnum L5Cover.CoverEnumOld.\n')
